@@ -48,6 +48,10 @@ def run(ctx, rep):
                        'this family. Reading the two sources shows real disagreements on the pinned tree (e.g. variant `OK` under snake_case: serde `o_k`, typeshare `ok`; typeshare '
                        'has one algorithm where serde has two); they are outside the decided clause and are NOT reported as findings of this check.')
     rep.trusted = ['syn/astq', 'rustc MIR call graph', 'serde_derive source named by Cargo.lock (RENAME_RULES)']
+    # E0: the rule is read wherever serde accepts it — any #[serde(..)] attribute of the container, not just the first one
+    # (shared with C01 KA / C02 VA: the look-ups are identified by the argument name they search for)
+    from .. import parser_rules as pr
+    rep.section(pr.all_attrs_rule, ctx, rep, 'E0', ('serde_rename_all',), 1, keys=('rename_all',))
     ver, rules = serde_rules(ctx)
     rep.check(len(rules) == 8, 'E1', 'serde:rule-table', f'serde_derive {ver}: {rules}', f'could not read 8 rules from serde_derive {ver}', None)
     f = ctx.fn('rename_all_to_case', file='parser.rs')
